@@ -30,6 +30,8 @@ type nsHistOpts struct {
 	// preDeliver / postDeliver bracket every datagram delivery to a live node.
 	preDeliver  func(rt *rapid.T, w *nsWorld, h *nsHist, p *nsPacket, from netip.AddrPort, x *nsNode)
 	postDeliver func(rt *rapid.T, w *nsWorld, h *nsHist, p *nsPacket, from netip.AddrPort, x *nsNode)
+	// customOp handles property-specific operations; it returns false for operations it does not know.
+	customOp func(rt *rapid.T, h *nsHist, op string) bool
 }
 
 type nsHist struct {
@@ -100,6 +102,13 @@ func nsRunHistory(rt *rapid.T, s *nsSim, o nsHistOpts) *nsHist {
 	w.pid = o.pid
 	h := &nsHist{o: &o, rt: rt, w: w, delivered: map[int]map[int]bool{}, stats: map[string]int{}}
 	w.startAll(rt)
+	defer func() {
+		if r := recover(); r != nil {
+			// attach world and history so the failure is readable, then re-panic for rapid
+			fmt.Printf("---- netsim world: %s\n---- netsim history (%d steps) ----\n%s\n", w.describe(), len(h.steps), strings.Join(h.steps, "\n"))
+			panic(r)
+		}
+	}()
 	ops := o.ops
 	if len(ops) == 0 {
 		ops = nsDefaultOps
@@ -108,7 +117,9 @@ func nsRunHistory(rt *rapid.T, s *nsSim, o nsHistOpts) *nsHist {
 	for step := 0; step < nsteps; step++ {
 		op := rapid.SampledFrom(ops).Draw(rt, "op")
 		h.stats[op]++
-		nsApplyOp(rt, h, op)
+		if o.customOp == nil || !o.customOp(rt, h, op) {
+			nsApplyOp(rt, h, op)
+		}
 		nsSharedInvariants(rt, h)
 		if o.afterStep != nil {
 			o.afterStep(rt, w, h)
@@ -124,13 +135,6 @@ func nsRunHistory(rt *rapid.T, s *nsSim, o nsHistOpts) *nsHist {
 }
 
 func nsSharedInvariants(rt *rapid.T, h *nsHist) {
-	defer func() {
-		if r := recover(); r != nil {
-			// attach the history so the failure is readable, then re-panic for rapid
-			fmt.Printf("---- netsim world: %s\n---- netsim history (%d steps) ----\n%s\n", h.w.describe(), len(h.steps), strings.Join(h.steps, "\n"))
-			panic(r)
-		}
-	}()
 	w := h.w
 	w.checkTun(rt)
 	_, fresh := w.checkHostmaps(rt)
